@@ -96,23 +96,45 @@ def spec_of(noise):
     raise ValueError(name)
 
 
-def reference(desc, circ, noise_on=True):
-    """reference channel simulation along the order in which the compilers execute the circuit.
+def reference(desc, circ, noise_on=True, objs=None, noises=None):
+    """reference channel simulation along the order in which the compilers execute the circuit; the noise of every
+    (sub-)operation is taken from the case descriptor, not from the library's unwrapped operation objects.
     returns (rho, expected trace, random_measurement_on_mixed_state)"""
     n = desc["ne"] + desc["np"]
     rho = sv.dm(sv.zero_state(n))
     trace = 1.0
     flag = False
-    for op in circ.sequence(unwrapped=True):
-        d = gc.name_of(op)
-        if d is None:
+    index = {id(o): i for i, o in enumerate(objs)} if objs is not None else None
+    plan = []
+    for op in circ.sequence():
+        d0 = gc.name_of(op)
+        if d0 is None:
             continue
-        nz = op.noise
-        if isinstance(nz, list):
-            specs = [spec_of(x) for x in nz]
+        if index is not None and id(op) in index:
+            i = index[id(op)]
+            d0, nz = desc["ops"][i], noises[i]
         else:
-            specs = [spec_of(nz)]
-        if not noise_on:
+            nz = None if index is not None else op.noise
+        if d0[0] == "W":
+            k = len(d0[3])
+            if index is not None:
+                lst = nz if nz is not None else [None] * k
+            else:
+                lst = [spec_of(x) for x in nz] if isinstance(nz, list) else [None] * k
+            for g, s_ in list(zip(d0[3], lst))[::-1]:
+                plan.append(([g, d0[1], d0[2]], [s_]))
+        elif len(gc.qregs(d0)) == 2 and not gc.measuring(d0):
+            if index is not None:
+                plan.append((d0, list(nz) if nz is not None else [None, None]))
+            else:
+                plan.append((d0, [spec_of(x) for x in nz]))
+        else:
+            if index is not None:
+                plan.append((d0, [nz]))
+            else:
+                plan.append((d0, [spec_of(nz)] if not isinstance(nz, list) else [None]))
+    for d, specs in plan:
+        if not noise_on or gc.measuring(d):
             specs = [None for _ in specs]
         if gc.measuring(d):
             mq = gc.qindex(desc, d[1], d[2])
@@ -150,7 +172,7 @@ def reference(desc, circ, noise_on=True):
     return rho, trace, flag
 
 
-def build_noisy(desc, noises):
+def build_noisy(desc, noises, return_ops=False):
     import graphiq.noise.noise_models as nm
 
     objs = []
@@ -163,7 +185,7 @@ def build_noisy(desc, noises):
             objs.append([make_noise(s) for s in nz])
         else:
             objs.append([make_noise(nz[0]), make_noise(nz[1])])
-    return gc.build(desc, objs)
+    return gc.build(desc, objs, return_ops=return_ops)
 
 
 def classes(desc, noises):
@@ -225,8 +247,8 @@ def check(case, sub="noisy"):
     n = desc["ne"] + desc["np"]
     cl, nontrivial, flat = classes(desc, noises)
     icls = input_class(desc, noises, flat)
-    circ = build_noisy(desc, noises)
-    rho_ref, trace_ref, random_on_mixed = reference(desc, circ)
+    circ, objs = build_noisy(desc, noises, return_ops=True)
+    rho_ref, trace_ref, random_on_mixed = reference(desc, circ, objs=objs, noises=noises)
     if random_on_mixed:
         cl.append("random_measurement_on_mixed_state")
     # (a) density-matrix backend: physical and equal to the reference channel simulation
@@ -277,7 +299,7 @@ def check(case, sub="noisy"):
             if abs((1 - inf) - want) > 1e-8:
                 raise Violation(sub, "infidelity-metric", "Infidelity(stab)", icls, "1 - infidelity = %.10g, reference %.10g" % (1 - inf, want))
     # (c) switches: noise simulation off reproduces the noiseless state
-    rho0, _, _ = reference(desc, circ, noise_on=False)
+    rho0, _, _ = reference(desc, circ, noise_on=False, objs=objs, noises=noises)
     for backend in ("dm", "stab"):
         s_off = compile_noisy(sub, icls, circ, backend, noise_on=False)
         if backend == "dm":
